@@ -285,15 +285,13 @@ func (s *SpecValidator) validateSchemaPropertyNames(nm string, sch spec.Schema, 
 		schn = sch.Ref.String()
 	}
 
-	if len(schc.AllOf) > 0 {
-		for _, chld := range schc.AllOf {
-			dup, rep := s.validateSchemaPropertyNames(schn, chld, knowns)
-			if rep != nil && (rep.HasErrors() || rep.HasWarnings()) {
-				res.Merge(rep)
-			}
-			dups = append(dups, dup...)
+	// the properties inherited through allOf, then the ones declared beside it
+	for _, chld := range schc.AllOf {
+		dup, rep := s.validateSchemaPropertyNames(schn, chld, knowns)
+		if rep != nil && (rep.HasErrors() || rep.HasWarnings()) {
+			res.Merge(rep)
 		}
-		return dups, res
+		dups = append(dups, dup...)
 	}
 
 	for k := range schc.Properties {
